@@ -355,3 +355,32 @@ def check_gen_obligations(pid, gd, imports, obligations, timeout=300):
         return (name, ok, (se or so)[-600:])
     with ThreadPoolExecutor(8) as ex:
         return list(ex.map(one, obligations))
+
+
+def gen_and_eval_sharded(pid, gocmd, header, footer, goargs=None, timeout=1500, env=None, workers=16, sub=""):
+    """Like gen_and_eval, but the harness writes defs_*.v shards into a directory; each shard is wrapped with
+    header/footer and evaluated by its own coqc, in parallel. Returns ([(shard_name, defs_text, coqc_stdout)], harness_result)."""
+    from concurrent.futures import ThreadPoolExecutor
+    binp = go_build(gocmd)
+    wd = os.path.join(WORK, pid, "shards" + sub)
+    shutil.rmtree(wd, ignore_errors=True)
+    os.makedirs(wd)
+    e = dict(GOENV)
+    e.update(env or {})
+    rc, so, se, dt = run([binp, wd] + (goargs or []), cwd=wd, env=e, timeout=timeout)
+    if rc != 0:
+        return None, (rc, so, se)
+    shards = sorted(f for f in os.listdir(wd) if f.startswith("defs_") and f.endswith(".v"))
+
+    def one(f):
+        text = open(os.path.join(wd, f)).read()
+        p = os.path.join(wd, "cases_" + f[5:])
+        with open(p, "w") as fh:
+            fh.write(header + "\n" + text + "\n" + footer)
+        rc2, out, err, dt2 = coqc_file(p, timeout=timeout)
+        if rc2 != 0:
+            raise Broken("%s for %s does not compile:\n%s\n%s" % (p, pid, out[-1500:], err[-2500:]))
+        return (f, text, out)
+    with ThreadPoolExecutor(workers) as ex:
+        res = list(ex.map(one, shards))
+    return res, (0, so, se)
